@@ -713,6 +713,10 @@ func genCase15(c *Chooser) C15Case {
 	g.MaxKids = c.Range(3, 6)
 	g.MaxDepth = c.Range(2, 4)
 	g.Big = false
+	if c.Chance(1, 5) {
+		g.UniqueIDs = false // several members of one array may carry the same identity
+		g.KeyedArr = true
+	}
 	docs := lineage(c, g, 1)
 	a, b := docs[0], docs[1]
 	// make multi-add / multi-remove list hunks and key removals likely
